@@ -1,7 +1,7 @@
 (* C16 proofs, part 4: the block table.  Invariant: every transfer that is not erased, in an unfinished block, belongs to
    an established connection.  Consequence: after DownloadMain::stop every unfinished block is requestable again. *)
 From Coq Require Import List ZArith NArith Bool Arith Lia.
-From LTV.C16 Require Import ParamsGen Model Proofs ProofsInv ProofsState.
+From LTV.C16 Require Import Model Proofs ProofsInv ProofsState.
 Import ListNotations.
 Open Scope Z_scope.
 
@@ -141,10 +141,10 @@ Proof.
      | Some i, nxt :: _ => N.eqb (piece_of i) (piece_of nxt) | _, _ => false end) (queued_empty (reqs r)) r) as H.
   unfold on_conn, seq2, tc_add, after_piece in *. destruct (is_conn r); cbn in *; exact H.
 Qed.
-Lemma pc_hs_bytes : forall pa gpx n, pc (hs_bytes_row pa gpx n).
-Proof. intros pa gpx n. unfold pc, hs_bytes_row. pc_tac. Qed.
-Lemma pc_pex_enable : forall gpx, pc (pex_enable_row gpx).
-Proof. intros gpx. unfold pc, pex_enable_row. pc_tac. Qed.
+Lemma pc_hs_bytes : forall pa gpx mp n, pc (hs_bytes_row pa gpx mp n).
+Proof. intros pa gpx mp n. unfold pc, hs_bytes_row. pc_tac. Qed.
+Lemma pc_pex_enable : forall gpx mp, pc (pex_enable_row gpx mp).
+Proof. intros gpx mp. unfold pc, pex_enable_row. pc_tac. Qed.
 Lemma pc_hs_msg : forall sd fl m n len, pc (on_hs (hs_msg sd fl m n len)).
 Proof.
   intros sd fl m n len. unfold pc, on_hs, hs_msg, finish_hs, refuse_row, to_conn.
@@ -355,7 +355,7 @@ Proof.
   intros c m n len s H. unfold pmsg_step.
   destruct (get_row c (rows s)) as [r|]; [|apply reject_binv; auto].
   destruct (ph r); auto.
-  - destruct (N.eqb (hsb r) Params.c16_hs_size); auto.
+  - destruct (N.eqb (hsb r) MP.hs_size); auto.
     set (s1 := with_row c (on_hs (hs_msg (seeding s) (Z.leb (maxc s) (nth 0 (g s) 0)) m n len)) s).
     assert (H1 : BInv s1) by (apply with_row_binv; auto with c16b).
     clearbody s1.
@@ -401,6 +401,7 @@ Proof.
   - apply do_close_binv.
   - apply do_close_binv.
   - destruct (opened s); exact H.
+  - exact H.
   - exact H.
 Qed.
 
